@@ -44,6 +44,19 @@ def gen(chk, tier):
         cands.append(rscalar(rng))        # must stay unread
         g.one("reject_" + "+".join(order), "sm2.sign", kind="hashed", priv=b32(d), e=b32(e),
               script=sm2gen.script_of(cands))
+    # (1b) neighbours of the r + k = n rule that must NOT be rejected: r + k = n +- delta, r + k just
+    # below 2^256 (a 32-byte sum above n), r + k = n + 1, n - 1
+    from ..sm2gen import e_for_r
+    for delta in ([1, -1, 2, 255, 256, (1 << 256) - N - 1, ((1 << 256) - N) // 2] if q else
+                  [1, -1, 2, -2, 3, 255, 256, 65536, (1 << 256) - N - 1, (1 << 256) - N - 2, ((1 << 256) - N) // 2, ((1 << 256) - N) // 3]):
+        for _ in range(2):
+            d = rscalar(rng)
+            k = rng.randrange(max(2, delta + 2), N - 1)
+            r = (N + delta - k) % N
+            if r == 0:
+                continue
+            e = e_for_r(k, r)
+            g.one("rk_near_n", "sm2.sign", kind="hashed", priv=b32(d), e=b32(e), script=sm2gen.script_of([k, rscalar(rng)]))
     # (2) digests solved so that r or s has leading zero bytes
     for which in ("r", "s", "t"):
         for nz in ((1, 2) if q else (1, 2, 3, 4)):
